@@ -9,17 +9,17 @@ the evaluation of the `_parse` call `a` (of the transcribed parser `parse g s fu
 soft failures, Opt, first / later iteration of OneOrMore / ZeroOrMore, Group / Suppress / Combine / Forward / plain
 ParseElementEnhance, FollowedBy, Located; and the positions the property text does not name but the code propagates
 from as well: the SkipTo target (scan and `include` re-parse), the ignore-expressions run by `preParse`, by the
-repetition loop and by the pre-parse inside Or / StringStart, the real re-parse of Or's best trial match), nested to
-any depth; `ts` lists, outermost first, what each container
+repetition loop and by the pre-parse inside Or / StringStart, the real re-parses Or does after its trial pass), nested
+to any depth; `ts` lists, outermost first, what each container
 does to an exception on its way out (`Tag`).
 
 Not propagating positions (and deliberately not constructors): NotAny, `stop_on`, SkipTo `fail_on` / `ignore`
 (they go through `try_parse`, which converts a fatal into a non-match: `tryParse_converts_fatal`,
-`notany_treats_fatal_as_nonmatch`), Or (raises a collected fatal only if nothing matched:
-`or_fatal_only_if_none_matched`), Each (outside the model).
-Propagating in the code but NOT covered by a constructor here: the re-parse by Or (with actions) of a *shorter* trial
-match after the re-parse of the longest one failed softly (`orPass2`, second and later candidates).
-(LineStart's own `preParse` runs no sub-expression: `Step.ignore` excludes it.)
+`notany_treats_fatal_as_nonmatch`), the trial pass of Or (collects the fatals of its alternatives and raises one only
+if nothing matched: `or_fatal_only_if_none_matched`, `or_raises_fatal_when_none_matched`), Each (outside the model).
+With these, every call `parseImpl`/`preParse` of the model makes is either a constructor here or one of the
+converting / collecting positions just listed.  (LineStart's own `preParse` runs no sub-expression: `Step.ignore`
+excludes it.)
 -/
 namespace PP.Parse
 
@@ -236,5 +236,22 @@ theorem exOr_path : Path exOr ['a'] [.plain] ⟨3, 0, 0, true, true⟩ ⟨2, 1, 
 
 example : parse exOr ['a'] 3 0 0 true true = .fail .fatal 0 :=
   fatal_propagates_exact exOr_path .fatal 0 (by rfl) rfl
+
+/-- Or, re-parse of a shorter trial match: `"ab".add_parse_action(raise ParseException) ^ "a".add_condition(False,
+    fatal=True)` on `"ab"` — both match in the trial pass; with actions the longer one fails softly, the shorter one
+    raises the fatal, which leaves the Or -/
+def exOr2 : Grammar :=
+  let l (c : Char) : Node := { kind := .lit1 c, skipWs := true, white := [' '], callPre := true, mayIdx := false,
+                               ignore := [], acts := [], callDuringTry := false, nameLen := 3 }
+  [ { l 'a' with kind := .or [1, 2] }, { l 'a' with kind := .lit ['a', 'b'], acts := [.failP] },
+    { l 'a' with acts := [.condFalse true] } ]
+
+theorem exOr2_path : Path exOr2 ['a', 'b'] [.plain] ⟨3, 0, 0, true, true⟩ ⟨2, 2, 0, true, true⟩ :=
+  .cons (.mk (nd := exOr2[0]) (pre := 0) rfl rfl
+    (.orLater (loc2 := 0) (a := { cands := [(2, 1), (1, 2)], fatals := [], mx := none }) (loc1 := 1) (rest := [])
+      (lg := none) (mx := some 0) rfl rfl rfl rfl (.soft (l := 0) rfl rfl (.refl _ _ _)) rfl)) (.refl _)
+
+example : parse exOr2 ['a', 'b'] 3 0 0 true true = .fail .fatal 0 :=
+  fatal_propagates_exact exOr2_path .fatal 0 (by rfl) rfl
 
 end PP.Parse
